@@ -435,6 +435,28 @@ def channel_summaries():
                 outs.append((s, mk_err(Agg({}, 'RecvError'))))
         return outs
 
+    @reg(r'^(crossbeam_channel::)?Receiver::<.*>::try_recv$')
+    def cb_try_recv(ex, st, fn, argv):
+        rx = deref(ex, st, argv[0])
+        if not isinstance(rx, ReceiverVal):
+            raise Unsupported(f"try_recv on {rx!r}")
+        ch = rx.chan
+        if ch.queue:
+            return [(st, mk_ok(ch.queue.pop(0)))]
+        alive = getattr(ch, 'tx_alive', None)
+        if alive is None:
+            alive = z3.BoolVal(ch.senders > 0)
+        outs = []
+        for (s, c, a) in ex.fork_on(st, alive, None):
+            outs.append((s, mk_err(Enum(0 if a else 1, {}, 'TryRecvError'))))   # Empty | Disconnected
+        return outs
+
+    @reg(r'^(crossbeam_channel::)?(Receiver|Sender)::<.*>::(len|is_empty)$')
+    def cb_len(ex, st, fn, argv):
+        e = deref(ex, st, argv[0])
+        n = len(e.chan.queue)
+        return [(st, Bool(n == 0) if fn.endswith('is_empty') else Int(z3.BitVecVal(n, 64), 64, False))]
+
     @reg(r'^<(crossbeam_channel::)?Sender<.*> as Clone>::clone$')
     def cb_clone(ex, st, fn, argv):
         tx = deref(ex, st, argv[0])
